@@ -528,6 +528,10 @@ func thriftOps() []top {
 				}
 			}
 			elems(n)
+			if n.Type() == thrift.STRUCT {
+				cast(n.Field(0)) // id 0 is what an iterator reports when it failed
+				cast(n.Field(77))
+			}
 			for _, p := range seedPaths(sd) {
 				cur := n
 				for _, st := range p {
@@ -572,6 +576,25 @@ func thriftOps() []top {
 			f := v.FieldByName("f1")
 			if f.IsError() {
 				cls = "error"
+			}
+			// the name-addressed twin of every path (field ids spelled as field names)
+			for _, p := range seedPaths(sd) {
+				var q []generic.Path
+				for _, st := range p {
+					if st.Type() == generic.PathFieldId {
+						q = append(q, generic.NewPathFieldName(fmt.Sprintf("f%d", st.Id())))
+					} else {
+						q = append(q, st)
+					}
+				}
+				c := v.GetByPath(q...)
+				if c.IsError() {
+					cls = "error"
+					continue
+				}
+				if _, err := c.Interface(&o0); err != nil {
+					cls = "error"
+				}
 			}
 			return cls
 		}},
